@@ -26,7 +26,7 @@ theorem reach_step (es : List Ev) (hok : okRun {} es = true) (e : Ev) (he : okEv
     Accepts (Spec.Broker.step (specRun {} es).1 e).2 (step (run {} es).1 e).2 ∧
     Spec.Broker.step (specRun {} es).1 e = Spec.Broker.step1 (specRun {} es).1 e :=
   ⟨(step_refines _ _ e (reach es hok) he).1, (step_refines _ _ e (reach es hok) he).2,
-   spec_step_eq _ e (reach es hok).overlap⟩
+   spec_step_eq _ e⟩
 
 /-! ### reading an answer off `Accepts` -/
 
@@ -248,37 +248,81 @@ def specPrior (s : Spec.Broker.S) (c : Nat) (req : Connect) : Option (List (Byte
 
 theorem spec_first_out (s : Spec.Broker.S) (c : Nat) (req : Connect) (a : Bool)
     (h : Spec.Broker.refusals req a = []) :
-    (Spec.Broker.step1 s (.first c (.connect req) a)).2 = [.send c (.connack (specPrior s c req).isSome 0)] ∧
-    (Spec.Broker.step1 s (.first c (.connect req) a)).1.held =
+    (Spec.Broker.first s c (.connect req) a).2 = [.send c (.connack (specPrior s c req).isSome 0)] ∧
+    (Spec.Broker.first s c (.connect req) a).1.held =
       ((specPrior s c req).getD ([], [])).1.foldl (fun h p => addHeld h c p.1 p.2) s.held := by
   unfold specPrior specClean specCid anonSpec
-  simp only [Spec.Broker.step1, h, List.isEmpty_nil, Bool.not_true, Bool.false_eq_true, ↓reduceIte, Spec.Broker.setConn]
+  simp only [Spec.Broker.first, h, List.isEmpty_nil, Bool.not_true, Bool.false_eq_true, ↓reduceIte, Spec.Broker.setConn]
   trivial
 
-/-- an accepted CONNECT (admitted by `okEv`): the SessionPresent flag is the
-reference broker's - a session stored under the client identifier and
-CleanSession = 0 -, and afterwards the trie holds exactly what the reference
+/-- an accepted CONNECT (admitted by `okEv`): first the live connection that
+carries the client identifier - if there is one - is ended on both sides
+(`takeOver_refines`; states `b0`, `s0`); then the CONNACK: its SessionPresent flag
+is the reference broker's - CleanSession = 0 and a session stored under the client
+identifier *after the take-over* (so a persistent session taken over is resumed,
+a clean one is not) -, and afterwards the trie holds exactly what the reference
 broker holds, the stored subscriptions of the client re-established for the new
 connection included -/
 theorem connect_refines {b : B} {s : Spec.Broker.S} (h : R b s) (c : Nat) (req : Connect) (a : Bool)
     (hok : okEv b (.first c (.connect req) a) = true)
     (hacc : Mqtt.Proofs.BrokerLife.accepts (.connect req) a = true) :
-    (step b (.first c (.connect req) a)).2 = [.send c (.connack (specPrior s c req).isSome 0)] ∧
+    R (takeOver b (.connect req) a).1 (Spec.Broker.takeOver s (.connect req) a).1 ∧
+    (step b (.first c (.connect req) a)).2 = (takeOver b (.connect req) a).2 ++
+      [.send c (.connack (specPrior (Spec.Broker.takeOver s (.connect req) a).1 c req).isSome 0)] ∧
+    (Spec.Broker.step1 s (.first c (.connect req) a)).2 = (Spec.Broker.takeOver s (.connect req) a).2 ++
+      [.send c (.connack (specPrior (Spec.Broker.takeOver s (.connect req) a).1 c req).isSome 0)] ∧
     HeldInv (step b (.first c (.connect req) a)).1.topics.sroot
-      (((specPrior s c req).getD ([], [])).1.foldl (fun h p => addHeld h c p.1 p.2) s.held) := by
+      (((specPrior (Spec.Broker.takeOver s (.connect req) a).1 c req).getD ([], [])).1.foldl
+        (fun h p => addHeld h c p.1 p.2) (Spec.Broker.takeOver s (.connect req) a).1.held) := by
   have href : Spec.Broker.refusals req a = [] := (Mqtt.Proofs.BrokerLife.refusals_nil_iff req a).mpr hacc
-  obtain ⟨o1, o2⟩ := spec_first_out s c req a href
-  obtain ⟨r1, r2⟩ := step_first h c (.connect req) a hok
-  have hm : (step b (.first c (.connect req) a)).2 =
-      [.send c (.connack (Mqtt.Proofs.BrokerLife.accepted b c req).2 0)] := by
-    show (first b c (.connect req) a).2 = _
-    rw [Mqtt.Proofs.BrokerLife.first_accepted b c req a hacc]
-  rw [o1, hm] at r2
-  have := accepts_send_inv (by intro w hw; cases hw) r2
-  refine ⟨by rw [hm, ← this], ?_⟩
-  have := r1.held
-  rw [o2] at this
-  exact this
+  have hok' := hok
+  simp only [okEv, Bool.and_eq_true, decide_eq_true_eq, Bool.not_eq_true'] at hok'
+  obtain ⟨⟨hclt, hdead⟩, hreq⟩ := hok'
+  simp only [hacc, Bool.not_true, Bool.false_or] at hreq
+  have hwok : ∀ w, req.will = some w → willOk w = true := by
+    intro w hw; rw [hw] at hreq; exact hreq
+  obtain ⟨r0, hd0, hcf0, _⟩ := takeOver_refines h c req a hacc hdead
+  obtain ⟨r1, sp, e1, e2⟩ := first_accepted_refines r0 c req a hacc hclt hd0 hwok hcf0
+  obtain ⟨o1, o2⟩ := spec_first_out (Spec.Broker.takeOver s (.connect req) a).1 c req a href
+  have hsp : sp = (specPrior (Spec.Broker.takeOver s (.connect req) a).1 c req).isSome := by
+    rw [o1] at e2
+    simpa using e2.symm
+  refine ⟨r0, ?_, ?_, ?_⟩
+  · rw [Mqtt.Proofs.Connect.step_first_eq, Mqtt.Proofs.Connect.connect_eq, e1, hsp]
+  · rw [spec_step_first_eq, o1]
+  · have := r1.held
+    rw [o2] at this
+    rw [Mqtt.Proofs.Connect.step_first_eq, Mqtt.Proofs.Connect.connect_eq]
+    exact this
+
+/-- SessionPresent after a take-over: the CONNECT finds a session of the client exactly when
+the connection it took over had CleanSession = 0 (its session was kept at its end) - and
+resumes it exactly when it has CleanSession = 0 itself -/
+theorem takeOver_prior {b : B} {s : Spec.Broker.S} (h : R b s) (c : Nat) (req : Connect)
+    (hne : req.clientId.isEmpty = false) (hreal : realCid req.clientId = true)
+    (c0 : Nat) (σ : Sess) (hσ : liveSess b c0 = some σ) (hcid : σ.cid = req.clientId) :
+    ∃ k, Spec.Broker.getConn s c0 = some k ∧ k.clean = σ.clean ∧
+      (specPrior (Spec.Broker.endConn s c0 false).1 c req).isSome = (!req.clean && !k.clean) := by
+  obtain ⟨k, hk, hrel⟩ := h.live c0 σ hσ
+  have hkc : k.cid = req.clientId := by
+    rcases hrel.cid with ⟨e1, _⟩ | ⟨e1, _, _⟩
+    · rw [← e1, hcid]
+    · rw [hcid] at e1; rw [e1, anonId_not_real] at hreal; cases hreal
+  refine ⟨k, hk, hrel.clean.symm, ?_⟩
+  have hst : (Spec.Broker.endConn s c0 false).1.stored = (endSpec s c0 k).stored := by
+    rw [spec_endConn_eq s c0 k false hk]
+    cases k.will with
+    | none => rfl
+    | some w => exact (spec_retainStep_frame _ _).2.1
+  unfold specPrior specClean specCid
+  simp only [hne, Bool.or_false, Bool.false_eq_true, ↓reduceIte, hst, endSpec, hkc]
+  cases req.clean with
+  | true => simp
+  | false =>
+    simp only [Bool.false_eq_true, ↓reduceIte, Bool.not_false, Bool.true_and]
+    cases k.clean with
+    | true => simp only [↓reduceIte]; rw [lookup_filter_self']; rfl
+    | false => simp [List.lookup_cons]
 
 /-- the reference broker's reasons to refuse a first packet -/
 def reasons (f : First) (a : Bool) : List (Option Nat) :=
@@ -308,9 +352,13 @@ theorem refusal_refines {b : B} (c : Nat) (f : First) (a : Bool)
         cases hr : Spec.Broker.refusals req a with
         | nil => rw [hr] at hx; cases hx
         | cons _ _ => rfl
-      simp only [Spec.Broker.step1]
+      rw [spec_step_first_eq, spec_takeOver_refused s _ a hacc]
+      simp only [Spec.Broker.first, List.nil_append]
       rw [if_pos this]
-    have hstep : step b (.first c (.connect req) a) = first b c (.connect req) a := rfl
+    have hstep : step b (.first c (.connect req) a) = first b c (.connect req) a := by
+      rw [Mqtt.Proofs.Connect.step_first_eq, Mqtt.Proofs.Connect.connect_eq,
+        Mqtt.Proofs.BrokerLife.takeOver_refused b _ a hacc]
+      simp
     rcases Mqtt.Proofs.BrokerLife.first_table b c req a hacc with ⟨h1, h2⟩ | ⟨k, hk, h2, h1⟩
     · rw [hstep, h1, hne _ h2]
       exact ⟨rfl, rfl, _, rfl, rfl, .inl ⟨rfl, h2⟩⟩
